@@ -83,6 +83,7 @@ type Job struct {
 
 // RunJob explores every path of the harness.
 func (P *Program) RunJob(job *Job) *JobResult {
+	debug.SetGCPercent(600)
 	t0 := time.Now()
 	res := &JobResult{Name: job.Name, Counts: map[Status]int{}, Reach: map[string]int{}, Funcs: map[string]bool{}, KnownHits: map[string]int{}}
 	pkg := P.Pkgs[job.Pkg]
@@ -226,7 +227,7 @@ func (P *Program) runPath(job *Job, fn *ssa.Function, item WorkItem, sol *smt.So
 	st := smt.NewStore()
 	p := &Path{St: st, Sol: sol, ex: ex, prefix: item.Prefix, lim: lim, uncertain: item.Uncertain,
 		reach: map[string]bool{}, notes: map[string]string{}, occ: map[string]int{}, choices: map[string]uint64{},
-		funcs: map[string]bool{}}
+		funcs: map[string]bool{}, funcSet: map[*fnInfo]struct{}{}}
 	if item.Model != nil {
 		p.setModel(item.Model)
 	}
@@ -251,6 +252,9 @@ func (P *Program) runPath(job *Job, fn *ssa.Function, item WorkItem, sol *smt.So
 		pr.Choices = p.choices
 		pr.Queries = p.queries
 		pr.Verdicts = p.verdicts
+		for fi := range p.funcSet {
+			p.funcs[fi.name] = true
+		}
 		pr.Funcs = p.funcs
 		if it.replay != nil {
 			pr.Replay = it.replay
